@@ -315,3 +315,76 @@ def extra_stages(tier, seed, scratch, total, notes):
                   "statement": "no AddressSanitizer report on these executions (not a proof of memory safety)" if not any('Sanitizer' in v["sig"][2] for v in t.violations) else "AddressSanitizer reported (see violations)"})
     t.observed = {"asan:" + k: v for k, v in t.observed.items() if not isinstance(v, set)}
     total.merge(t)
+    miri_stage(seed, scratch, total, notes)
+
+
+def _miri_compile(args):
+    import runner
+    cases, scratch, mseed, harness, tdir = args
+    env = runner.cargo_env()
+    env["MIRIFLAGS"] = "-Zmiri-disable-isolation -Zmiri-seed=%d" % mseed
+    drv = runner.Driver(None, scratch, env=env, wrapper=["cargo", "+nightly", "miri", "run", "--offline", "--target-dir", tdir, "--"], cwd=harness)
+    res = runner.UnitResult()
+    try:
+        out = drv.run(cases, "miri", watchdog=2400)
+    except runner.Inconclusive as e:
+        res.inconclusive.append("miri: " + str(e)[:300])
+        return res
+    for c, r in zip(cases, out):
+        res.count("miri_compiles")
+        check_compile(res, c, r)
+    res.inconclusive.extend(drv.inconclusive)
+    return res
+
+
+MIRI_FIXED = ["'''\na\\ud800'''", "a.in", "x.true.y", "99999999999999999999", "'\\U00110000' + 1", "b'\\u0041'", "[1,\n 2] + '\\400'", "0x", "1e",
+              "1u2", "a ? b", "a ? b : c ? d", "has(a)", "has(a.b).c", "[].map(x, y, z, w)", "x.all(1, true)", "f(,)", "{1:}", "{:1}", "a.b(", "a[",
+              "a[]", "--9223372036854775808", "-(-9223372036854775808)", "", " ", "﻿", "1 +", "ä", "𝄞", "`e i`", "r'''\x00'''", "a.b.c.d.e.f"]
+
+
+def miri_stage(seed, scratch, total, notes, nproc=14, per=20):
+    """The parser itself (antlr4rust is full of `unsafe`) under Miri: short hostile texts of every family."""
+    import runner
+    import time as _t
+    from concurrent.futures import ProcessPoolExecutor
+    try:
+        runner._alt_repo()
+        rng = rng_for(seed, 'C01', 'miri')
+        pool = list(MIRI_FIXED)
+        alltok = TOKENS + MORE_TOKENS
+        for _ in range(4000):
+            m = rng.random()
+            if m < 0.3:
+                t = ''.join(rng.choice(CHARS) for _ in range(rng.choice([1, 2, 3, 5, 8, 13])))
+            elif m < 0.6:
+                t = rng.choice([' ', '', ' ', '\n']).join(rng.choice(alltok) for _ in range(rng.randint(1, 7)))
+            elif m < 0.8:
+                t = valid_expr(rng, rng.choice([0, 1, 2]))
+            else:
+                v = valid_expr(rng, rng.choice([0, 1]))
+                t = rng.choice([v + ' ' + rng.choice(['+', '&&', '?', '.', ')', ']', "'abc", '"', '@', '\\']), rng.choice('([{') + v, v + ' ' + v])
+            if len(t.encode('utf-8')) <= 48:
+                pool.append(t)
+        pool = list(dict.fromkeys(pool))
+        head, tail = pool[:len(MIRI_FIXED)], pool[len(MIRI_FIXED):]
+        rng.shuffle(tail)
+        pool = head + tail
+        jobs = []
+        for m in range(nproc):
+            texts = pool[m::nproc][:per]
+            cases = [{"id": i, "op": "compile", "src": t} for i, t in enumerate(texts)]
+            jobs.append((cases, os.path.join(scratch, "miri%d" % m), 1 + m, runner.HARNESS, runner.TARGET + "-miri"))
+        t0 = _t.time()
+        results = [_miri_compile((jobs[0][0][:2],) + jobs[0][1:])]        # the first call also builds
+        with ProcessPoolExecutor(max_workers=nproc) as ex:
+            results += list(ex.map(_miri_compile, [(jobs[0][0][2:],) + jobs[0][1:]] + jobs[1:]))
+        mt = runner.UnitResult()
+        for r in results:
+            mt.merge(r)
+        notes.append({"stage": "miri (parser)", "processes": nproc, "compiles": mt.observed.get("miri_compiles", 0), "wall_s": round(_t.time() - t0, 1),
+                      "reports": len(mt.violations), "inconclusive": mt.inconclusive[:3],
+                      "statement": "no undefined behaviour reported by Miri while compiling these texts (not a proof of memory safety)" if not mt.violations else "Miri / the oracle reported (see violations)"})
+        mt.observed = {"miri:" + k: v for k, v in mt.observed.items() if not isinstance(v, set)}
+        total.merge(mt)
+    except runner.Inconclusive as e:
+        notes.append({"stage": "miri (parser)", "result": "inconclusive (toolchain): " + str(e)[:300]})
